@@ -89,7 +89,11 @@ func (r *Run) newSigner(k *KeyPair, viaDirectory bool) cose.Signer {
 		r.Lib(func() { s, err = libSigner(k) })
 	}
 	if err != nil {
-		panic(fmt.Sprintf("harness: NewSigner(%d, %s) failed: %v", k.Alg, k.Name, err))
+		if panicIsViolation[r.Prop] {
+			r.Check()
+			r.Fail("signer-cannot-be-built/"+baseName(k.Name), "NewSigner(%d, %s) failed: %v", k.Alg, k.Name, err)
+		}
+		r.Skip(fmt.Sprintf("NewSigner(%d, %s) failed: %v", k.Alg, k.Name, err))
 	}
 	return s
 }
@@ -103,6 +107,11 @@ func (r *Run) verifierFor(k *KeyPair, viaDirectory bool) cose.Verifier {
 			ck, err = cose.NewKeyFromPublic(k.Pub)
 			if err != nil {
 				return
+			}
+			if r.T.Bool(1, 2, "directory.kid") {
+				// the directory files keys under identifiers of its own; what
+				// kid a message carries (if any) is the sender's business
+				ck.ID = []byte("dir-" + k.Name)
 			}
 			var b []byte
 			b, err = ck.MarshalCBOR()
@@ -124,7 +133,15 @@ func (r *Run) verifierFor(k *KeyPair, viaDirectory bool) cose.Verifier {
 	var err error
 	r.Lib(func() { v, err = libVerifier(k) })
 	if err != nil {
-		panic(fmt.Sprintf("harness: NewVerifier(%d, %s) failed: %v", k.Alg, k.Name, err))
+		// every key of the pool is a valid key of its algorithm: a verifier
+		// that cannot be built for the public half of a key that signs is a
+		// failed round trip where the statement promises one, and an abandoned
+		// run elsewhere
+		if panicIsViolation[r.Prop] {
+			r.Check()
+			r.Fail("verifier-cannot-be-built/"+baseName(k.Name), "NewVerifier(%d, public key of %s) failed: %v", k.Alg, k.Name, err)
+		}
+		r.Skip(fmt.Sprintf("NewVerifier(%d, %s) failed: %v", k.Alg, k.Name, err))
 	}
 	return v
 }
